@@ -149,6 +149,24 @@ func (in *Interp) builtin(g *G, fr *Frame, b *ssa.Builtin, args []Value, call *s
 		}
 		copy(xs, tmp)
 		return mkInt(uint64(n), 64)
+	case "clear":
+		switch args[0].K {
+		case KMap:
+			if args[0].R != nil {
+				m := args[0].R.(*MapV)
+				in.raceAccess(m, true)
+				*m = *newMap()
+			}
+		case KSlice:
+			if args[0].R != nil {
+				es := args[0].R.(*SliceV).S
+				et := call.Args[0].Type().Underlying().(*types.Slice).Elem()
+				for i := range es {
+					es[i] = zero(et)
+				}
+			}
+		}
+		return Value{}
 	case "delete":
 		if args[0].R != nil {
 			in.raceAccess(args[0].R.(*MapV), true)
